@@ -282,6 +282,20 @@ class BoundaryConditionsBase:
                 or self.top.modified or self.bottom.modified\
                 or self.front.modified or self.back.modified)
             
+    def _state_token(self):
+        """
+        Hashable snapshot of all boundary coefficients and periodic flags.
+        
+        A BoundaryConditions object may be shared between several 
+        CellVariables, whereas the `modified` flags are reset by the first 
+        variable that applies the boundary conditions. Each CellVariable 
+        therefore remembers the snapshot it last applied.
+        """
+        return tuple((np.asarray(f.a).tobytes(), np.asarray(f.b).tobytes(),
+                      np.asarray(f.c).tobytes(), bool(f.periodic))
+                     for f in (self.left, self.right, self.bottom,
+                               self.top, self.back, self.front))
+
     @modified.setter
     def modified(self, val):
         # To keep things simple, we always include all possible faces,
